@@ -143,6 +143,19 @@ func init() {
 			}
 			return BVC(64, uint64(sqlKind(q)))
 		},
+		rtPkg + ".Last": func(m *Machine, _ *Thread, _ *Frame, a []Value, _ ssa.Value) Value {
+			name := m.litArg(a[0], "name")
+			for i := len(m.named) - 1; i >= 0; i-- {
+				n := m.named[i].name
+				if n == name || strings.HasPrefix(n, name+"#") {
+					return m.named[i].t
+				}
+			}
+			panic(m.unsupported("Last(%q): no such symbolic variable on this path", name))
+		},
+		rtPkg + ".AlgebraDomain": func(m *Machine, _ *Thread, _ *Frame, a []Value, _ ssa.Value) Value {
+			return BoolC(m.Domain == DomAlgebra)
+		},
 		rtPkg + ".Hash32": func(m *Machine, _ *Thread, _ *Frame, a []Value, _ ssa.Value) Value {
 			return ByteArr{T: m.termOf(a[0]), N: 32}
 		},
